@@ -10,11 +10,11 @@ import warnings
 import numpy as np
 
 Q7 = 10 ** 7
-IMAX = 2 ** 31 - 1
+IMAX = 10 ** 9          # clip: differences of two logged values must still fit TLC's 32-bit integers
 
 
 def q7(x):
-    """real part of x in units of 1e-7, clipped to TLC's integer range"""
+    """real part of x in units of 1e-7, clipped to +-1e9 (|x| >= 100 is off the scale of every family used)"""
     v = float(np.real(x)) * Q7
     if not np.isfinite(v):
         return IMAX
@@ -227,7 +227,10 @@ class Meas:
 # --------------------------------------------------------------------------- recorder
 class Recorder:
     """Wraps DMRG.sweep and DMRG._update_local_state (class level, restored on exit) and appends one trace
-    record per sweep start, local update and sweep end of the DMRG object it is armed for."""
+    record per sweep start, local update and sweep end of the DMRG object it is armed for.  While a
+    two-site update runs, Tensor.split is observed too: the singular values of the tensor being split are
+    recomputed with numpy, which gives the discarded weight of the split independently of whether the
+    library renormalises afterwards."""
 
     def __init__(self):
         self.recs = []
@@ -236,11 +239,25 @@ class Recorder:
 
     def __enter__(self):
         import quimb.tensor.tn1d.dmrg as DM
+        import quimb.tensor.tensor_core as TC
 
-        self._DM = DM
-        self._orig = (DM.DMRG.sweep, DM.DMRG._update_local_state)
+        self._DM, self._TC = DM, TC
+        self._orig = (DM.DMRG.sweep, DM.DMRG._update_local_state, TC.Tensor.split)
         rec = self
-        osweep, oupd = self._orig
+        osweep, oupd, osplit = self._orig
+
+        def split(t, *args, **kw):
+            c = rec.cur
+            if c is not None and c.get("in_upd") and kw.get("get") == "arrays" and kw.get("left_inds") is not None:
+                try:
+                    li = list(kw["left_inds"])
+                    ri = [ix for ix in t.inds if ix not in li]
+                    A = np.asarray(t.data).transpose([t.inds.index(ix) for ix in li + ri])
+                    nl = int(np.prod([t.ind_size(ix) for ix in li]))
+                    c["svals"] = np.linalg.svd(A.reshape(nl, -1), compute_uv=False)
+                except Exception:  # noqa
+                    c["svals"] = None
+            return osplit(t, *args, **kw)
 
         def sweep(dm, direction, canonize=True, verbosity=0, **update_opts):
             c = rec.cur
@@ -250,7 +267,7 @@ class Recorder:
             c["cap"] = int(update_opts.get("max_bond", -1) or -1)
             c["cut12"] = qabs(update_opts.get("cutoff", 0.0) or 0.0, 1e-12, cap=2 * 10 ** 9)
             c["nupd"] = 0
-            c["lastw9"] = 0
+            c["lastdw9"] = 0
             rec.emit({"ev": "sweep_start", "k": c["k"], "dir": str(direction), "canon": bool(canonize),
                       "cap": c["cap"], "cut12": c["cut12"], "bonds": [int(b) for b in dm.state.bond_sizes()]})
             out = osweep(dm, direction, canonize=canonize, verbosity=verbosity, **update_opts)
@@ -258,9 +275,10 @@ class Recorder:
             m = Meas(psi, c["ham"], c["Hd"])
             e = complex(out)
             r = {"ev": "sweep_end", "k": c["k"], "e": q7(e.real), "eim": qabs(e.imag, 1e-7),
-                 "ema": q7(m.ema), "emd": q7(m.emd), "n7": q7(m.n), "w9": qabs(1 - m.n, 1e-9),
+                 "ema": q7(m.ema), "emd": q7(m.emd), "n7": q7(m.n),
                  "bonds": [int(b) for b in psi.bond_sizes()], "nupd": c["nupd"],
-                 "lasttrunc": bool(c["lastw9"] > 100), "capltd": bool(0 < c["cap"] < c["d"]),
+                 # narrowing fields for KF-C10-2 / KF-C10-1 (never used for a verdict)
+                 "lasttrunc": bool(c["lastdw9"] > 10), "capltd": bool(0 < c["cap"] < c["d"]),
                  "tconj": rec._tconj(e.real, m, normalised=True)}
             rec.emit(r)
             return out
@@ -277,7 +295,12 @@ class Recorder:
             pre = iso_defect(dm.state, i, bsz)       # the blocks the local problem is about to be formed from
             c["fail_noniso"] = bool(pre > 1e-3)
             first = bool(c["k"] == 1 and c["nupd"] == 0)
-            out = oupd(dm, i, **update_opts)
+            c["svals"] = None
+            c["in_upd"] = True
+            try:
+                out = oupd(dm, i, **update_opts)
+            finally:
+                c["in_upd"] = False
             loc_en, tot_en = out
             psi = dm.state
             m = Meas(psi, c["ham"], c["Hd"])
@@ -287,29 +310,43 @@ class Recorder:
             after = [int(b) for b in psi.bond_sizes()]
             tot = complex(tot_en)
             c["nupd"] += 1
-            w9 = qabs(1 - m.n, 1e-9)
-            c["lastw9"] = w9
+            # discarded weight of the split: from the singular values of the tensor that was split (two-site),
+            # zero for a one-site update (nothing is split); fall back to the norm deficit
+            dwsrc = "none"
+            if bsz == 1:
+                dw = 0.0
+            elif c["svals"] is not None and float(np.sum(c["svals"] ** 2)) > 0:
+                s2 = np.asarray(c["svals"], dtype=float) ** 2
+                dw = float(s2[int(after[i]):].sum() / s2.sum())
+                dwsrc = "svals"
+            else:
+                dw = abs(1 - m.n)
+                dwsrc = "norm"
+            dw9 = qabs(dw, 1e-9)
+            c["lastdw9"] = dw9
             direction = update_opts.get("direction")
+            sane = m.n > 1e-3
             r = {"ev": "update", "k": c["k"], "i": int(i), "dir": {"right": "R", "left": "L"}.get(direction, str(direction)),
                  "eloc": q7(complex(loc_en).real), "etot": q7(tot.real), "eim": qabs(tot.imag, 1e-7),
                  "efull": q7(efull.real), "ema": q7(m.ema), "emd": q7(m.emd), "eud": q7(m.eu.real),
-                 "n7": q7(m.n), "w9": w9, "bonds": after,
+                 "n7": q7(m.n), "dw9": dw9, "dwsrc": dwsrc, "bonds": after,
                  "nb": int(after[i]) if bsz == 2 else 0,
                  "rmax": int(min(bl * d, d * br)) if bsz == 2 else 0,
                  "full": bool(bl == d ** i and br == d ** (L - i - bsz)),
                  "pre9": qabs(pre, 1e-9), "noniso": bool(pre > 1e-3), "first": first,
-                 # narrowing field for KF-C10-1: the first update does not exceed p0's energy w.r.t. H^T
+                 # narrowing fields for KF-C10-1 (never used for a verdict)
                  "p0T": bool(c["cplx"] and first and complex(loc_en).real <= c["ep0T"] + 1e-6 * (1 + abs(c["ep0T"]))),
-                 "tconj": rec._tconj(tot.real, m, normalised=(w9 <= 100), unnorm=True)}
+                 "tconj": bool(sane and rec._tconj(tot.real, m, normalised=(dw9 <= 10 and abs(1 - m.n) < 1e-6), unnorm=True))}
             rec.emit(r)
             return out
 
         DM.DMRG.sweep = sweep
         DM.DMRG._update_local_state = upd
+        TC.Tensor.split = split
         return self
 
     def __exit__(self, *a):
-        self._DM.DMRG.sweep, self._DM.DMRG._update_local_state = self._orig
+        self._DM.DMRG.sweep, self._DM.DMRG._update_local_state, self._TC.Tensor.split = self._orig
         self.cur = None
         return False
 
@@ -317,7 +354,7 @@ class Recorder:
         """narrowing field for known finding KF-C10-1 (never used for a verdict): the reported number is
         the expectation value of the TRANSPOSED operator in this state."""
         c = self.cur
-        if not c["cplx"]:
+        if not c["cplx"] or not m.n > 1e-3:
             return False
         ok = True
         if normalised:
@@ -335,8 +372,8 @@ class Recorder:
 
     def arm(self, dmrg, ham, Hd, tid, cplx, d, ep0T=0.0):
         self.cur = {"dmrg": dmrg, "ham": ham, "Hd": Hd, "tid": tid, "cplx": bool(cplx), "d": int(d),
-                    "ep0T": float(ep0T), "fail_noniso": False,
-                    "bsz": int(dmrg.bsz), "k": 0, "cap": -1, "cut12": 0, "nupd": 0, "lastw9": 0}
+                    "ep0T": float(ep0T), "fail_noniso": False, "in_upd": False, "svals": None,
+                    "bsz": int(dmrg.bsz), "k": 0, "cap": -1, "cut12": 0, "nupd": 0, "lastdw9": 0}
 
     def disarm(self):
         self.cur = None
